@@ -42,11 +42,12 @@ type Stall struct {
 
 // BitOp is one operation of a BitList history.
 type BitOp struct {
-	Op string `json:"op"`          // new zero addbit addbits addbyte set get len bytes iter itern switch
+	Op string `json:"op"`          // new zero addbit addbits addbyte set get len bytes iter itern switch fill
 	A  int    `json:"a,omitempty"` // new: n; addbits: value; addbyte: byte; set/get: index
 	N  int    `json:"n,omitempty"` // addbits: count; addbit: number of bits taken from Bits
 	V  bool   `json:"v,omitempty"` // set: value
 	Bs []bool `json:"bs,omitempty"`
+	Go bool   `json:"go,omitempty"` // perform this operation on a fresh goroutine and wait for it
 	// iter only: read operations performed by the consumer between receives
 	Reads int `json:"reads,omitempty"`
 }
